@@ -1,5 +1,5 @@
 import Logrange.Proofs.DateFirstMatch
-/-! scratch (not imported): blank padding of an LQL literal -/
+/-! # Blank padding of an LQL literal: `strings.Trim(s, " ")` removes it (`parseLql_padded`) -/
 namespace Logrange.Date
 
 theorem dropWhile_blank_replicate (a : Nat) (r : Bytes) :
